@@ -63,6 +63,17 @@ def many_structs(n, seed):
     return "\n".join(L) + "\n"
 
 
+def big_shader(n, salt):
+    L = []
+    for i in range(n):
+        L.append("struct T%d_%d { a: vec4<f32>, b: vec4<u32>, c: mat4x4<f32> }" % (salt, i))
+    L.append("struct All%d { %s }" % (salt, ", ".join("t%d: T%d_%d" % (i, salt, i)
+                                                      for i in range(n))))
+    L.append("@group(0) @binding(0) var<uniform> all: All%d;" % salt)
+    L.append("@compute @workgroup_size(1) fn main() { _ = all.t0.a; }")
+    return "\n".join(L) + "\n"
+
+
 def deep_chain(depth):
     L = ["@group(0) @binding(0) var<storage, read_write> data: array<f32, 4>;",
          "@group(0) @binding(1) var tex: texture_2d<f32>;",
@@ -85,6 +96,16 @@ def build_jobs():
     # deep call graphs: concurrent walks that share any process-wide state would interfere
     for depth in (40, 90, 120):
         shaders["deep%d.wgsl" % depth] = deep_chain(depth)
+    # several push constants, each used by another entry point (a choice among them must not
+    # depend on hash order), and outputs above the 64 KiB pipe buffer
+    shaders["multipush.wgsl"] = (
+        "var<push_constant> pa: vec4<f32>;\nvar<push_constant> pb: mat4x4<f32>;\n"
+        "var<push_constant> pc3: array<vec4<f32>, 3>;\n"
+        "@vertex fn vs() -> @builtin(position) vec4<f32> { return pa; }\n"
+        "@fragment fn fs() -> @location(0) vec4<f32> { return pb[0]; }\n"
+        "@compute @workgroup_size(1) fn cs() { _ = pc3[1]; }\n")
+    for k in range(3):
+        shaders["big%d.wgsl" % k] = big_shader(420 + 40 * k, k)
     jobs = []
     for name, src in sorted(shaders.items()):
         for oi, opt in enumerate(OPTION_SETS):
@@ -120,7 +141,8 @@ def syscall_monitor(binp, jobs, work, real_dir, viol, stats):
         seen.add(key)
         sel.append(dict(j))
     fmt_jobs = []
-    for j in sel[:12]:
+    bigs = [j for j in sel if j["id"].startswith("big")][:1]
+    for j in sel[:12] + bigs:
         k = dict(j)
         k["id"] = j["id"] + "#fmt"
         k["opt"] = dict(j["opt"], fmt=True)
@@ -363,6 +385,22 @@ def main(tier, replay, t0):
             record("f%d" % k, res)
             stats["processes"] += 1
 
+        # concurrent formatter-on calls with outputs above the pipe buffer (a shared scratch
+        # file or any other per-process resource would mix them up)
+        bigfmt = [dict(j, id=j["id"] + "#fmt", opt=dict(j["opt"], fmt=True)) for j in jobs
+                  if j["id"].startswith("big") and j["id"].endswith("#o0#emb")]
+        seq = []
+        p, seq = core.run_drive(binp, bigfmt, "c18/bigseq", cwd=cwd_b,
+                                extra_env={"PATH": real_dir + ":/usr/bin:/bin"})
+        if p.returncode != 0 or len(seq) != len(bigfmt):
+            raise core.Inconclusive("big formatter run failed: %s" % p.stderr[-1500:])
+        record("bigseq", seq)
+        p, res = core.run_drive(binp, bigfmt * 6, "c18/bigthr", threads=6, shuffle=3, cwd=cwd_a,
+                                timeout=900, extra_env={"PATH": real_dir + ":/usr/bin:/bin"})
+        if p.returncode != 0 or len(res) != 6 * len(bigfmt):
+            raise core.Inconclusive("threaded big formatter run failed: %s" % p.stderr[-1500:])
+        record("bigthr", res)
+        stats["processes"] += 2
         # the formatter's speed is not an input: a correct but slow formatter must give the
         # same bytes as the fast one
         slow = fj[:8]
